@@ -496,7 +496,9 @@ def law_model(cx, schemas, hists, rl):
             keyless, twin, incase, lost, excl, exact = (c == "1" for c in sh[:6])
             fresh, toponly, unchanged = (c == "1" for c in (sh[6:9] if len(sh) >= 9 else "---"))
             # which PROVED theorem of Props/C07Valdiff.lean speaks about this input (hypotheses evaluated by the model)
-            thm = "valdiff_exact_unchanged" if unchanged else ("valdiff_exact_partial_fresh" if fresh and toponly else None)
+            topany = len(sh) >= 15 and sh[14] == "1"
+            thm = "valdiff_exact_unchanged" if unchanged else ("valdiff_exact_partial_fresh" if fresh and toponly else
+                                                             ("valdiff_exact_partial_top" if topany else None))
             cx.dist["valdiff-proved:" + (thm or ("none(" + ("not-fresh" if not fresh else "changes-below-top-level") + ")"))] += 1
             if thm and not exact:
                 cx.fail(COMP, "model: the statement of the proved theorem %s evaluates to false on an input inside its hypotheses" % thm,
